@@ -9,7 +9,8 @@ RULE = ("seeded random continua up to 2x9, 3x9, 4x5, 5x3 units x pooled dissimil
         "incl. 0; delta_empty != 1) x both MIP back-ends, each compared with an unpruned exact optimum (bitmask "
         "dynamic programme <= 14 units, HiGHS MILP, assignment algorithm for 2 annotators); thorough tier adds the "
         "complete grids '2 annotators x <=3 units' (6 segments x 2 labels) and '3 annotators x <=2 units' (6 "
-        "segments); a block with delta_empty 1e-4 .. 1e-6 (compared in units of delta_empty); a corpus of continua whose programme has an integrality gap (LP relaxation below the integer optimum, so "
+        "segments); dense 3x24 .. 3x26 / 4x11 continua with more than 10 000 candidates; unlabelled units in a quarter of the cases whose dissimilarity needs no "
+        "label; a block with delta_empty 1e-4 .. 1e-6 (compared in units of delta_empty); a corpus of continua whose programme has an integrality gap (LP relaxation below the integer optimum, so "
         "that the solvers must branch; mined off-line, judged at run time); 10 % of the random cases are editing sessions (compute, edit the same continuum object, compute again); "
         "non-trivial = at least 2 units and 2 non-empty annotators; distinct by SHA-1 of the case")
 ASSUMPTIONS = [
@@ -123,6 +124,16 @@ def run(ctx):
         case = dict(hc, backend="cbc" if i % 2 == 0 else "glpk", want="auto")
         ctx.begin_case(case)
         ctx.observe("family", "integrality-gap")
+        check_case(ctx, case)
+    # more than 10 000 candidate unitary alignments with >= 3 annotators (the library's candidate buffers grow past their first
+    # size; the unpruned oracle has 15 000 - 25 000 columns)
+    for i in range(ctx.scale(1, 5)):
+        sizes = ctx.rng.choice([[24, 24, 24], [25, 24, 23], [26, 26, 26], [11, 11, 11, 11]])
+        cspec = cases.gen_continuum(ctx.rng, n_annot=len(sizes), sizes=sizes, family="dense", labels=cases.LABELS_SMALL)
+        case = {"continuum": cspec, "dissim": {"kind": "positional", "delta": 1.0} if i % 2 == 0 else
+                {"kind": "combined", "alpha": 1.0, "beta": 1.0, "delta": 1.0, "pos": None, "cat": None}, "backend": "cbc", "want": "milp"}
+        ctx.begin_case(case)
+        ctx.observe("family", "more-than-10000-candidates")
         check_case(ctx, case)
     # very small delta_empty: every cost is of the order of 1e-5 .. 1e-6, below the absolute tolerances MIP solvers work with
     for i in range(ctx.scale(12, 200)):
